@@ -144,15 +144,19 @@ def is_len_call(node):
 MEMBERSHIP_GUARD_CALLS = set()
 
 
-def test_facts(test):
+def test_facts(test, aliases=None):
     """(facts when the test is true, facts when it is false).
+    `aliases` maps a local name to the test expression it was assigned
+    (`empty = isinstance(x, str) and not x; if empty: return`).
 
     `isinstance(x, str)` being false makes every text fact about x hold
     vacuously: the property speaks about text, and x is not text there."""
     t, f = Facts(), Facts()
     if isinstance(test, ast.UnaryOp) and isinstance(test.op, ast.Not):
-        a, b = test_facts(test.operand)
+        a, b = test_facts(test.operand, aliases)
         return b, a
+    if aliases and isinstance(test, ast.Name) and test.id in aliases:
+        return test_facts(aliases[test.id], None)
     k = key_of(test)
     if k is not None:
         t.nonempty.add(k)
@@ -190,7 +194,7 @@ def test_facts(test):
                         f.lenchecked.discard(lk)
         return t, f
     if isinstance(test, ast.BoolOp):
-        parts = [test_facts(v) for v in test.values]
+        parts = [test_facts(v, aliases) for v in test.values]
         if isinstance(test.op, ast.And):
             for a, _ in parts:
                 t.add(a)
@@ -235,7 +239,17 @@ class GuardWalker:
 
     def run(self):
         facts = Facts()
+        self.aliases = {}
         self.block(self.func.node.body, facts)
+
+    def tf(self, test):
+        return test_facts(test, getattr(self, "aliases", None))
+
+    def kill_aliases(self, name):
+        for a in [a for a, e in self.aliases.items() if a == name or any(
+                isinstance(n, ast.Name) and n.id == name
+                for n in ast.walk(e))]:
+            del self.aliases[a]
 
     def block(self, body, facts):
         for st in body:
@@ -260,7 +274,7 @@ class GuardWalker:
     def stmt(self, st, facts):
         if isinstance(st, ast.If):
             self.expr(st.test, facts)
-            tf, ff = test_facts(st.test)
+            tf, ff = self.tf(st.test)
             fa = facts.copy()
             fa.add(tf)
             fb = facts.copy()
@@ -288,7 +302,7 @@ class GuardWalker:
                 inner = facts.copy()
                 for k in self.assigned_in(st.body):
                     inner.kill(k)
-                tf, _ = test_facts(st.test)
+                tf, _ = self.tf(st.test)
                 inner.add(tf)
             self.block(st.body, inner)
             out = facts.copy()
@@ -331,6 +345,14 @@ class GuardWalker:
                     if isinstance(t, ast.Subscript):
                         continue
                     facts.kill(k)
+                    self.kill_aliases(k)
+                    if isinstance(t, ast.Name) and isinstance(
+                            val, (ast.BoolOp, ast.Compare, ast.UnaryOp)) or (
+                            isinstance(t, ast.Name) and
+                            isinstance(val, ast.Call) and
+                            isinstance(val.func, ast.Name) and
+                            val.func.id == "isinstance"):
+                        self.aliases[k] = val
                     if val is not None and not isinstance(st, ast.AugAssign):
                         unpack = isinstance(t, (ast.Tuple, ast.List))
                         for kind in self.assign_facts(val, facts, unpack):
@@ -397,13 +419,13 @@ class GuardWalker:
             cur = facts.copy()
             for v in node.values:
                 self.expr(v, cur)
-                tf, ff = test_facts(v)
+                tf, ff = self.tf(v)
                 cur = cur.copy()
                 cur.add(tf if isinstance(node.op, ast.And) else ff)
             return
         if isinstance(node, ast.IfExp):
             self.expr(node.test, facts)
-            tf, ff = test_facts(node.test)
+            tf, ff = self.tf(node.test)
             a = facts.copy()
             a.add(tf)
             b = facts.copy()
@@ -420,7 +442,7 @@ class GuardWalker:
                     inner.kill(k)
                 for c in g.ifs:
                     self.expr(c, inner)
-                    tf, _ = test_facts(c)
+                    tf, _ = self.tf(c)
                     inner.add(tf)
             for e in ([node.key, node.value] if isinstance(node, ast.DictComp)
                       else [node.elt]):
